@@ -12,12 +12,16 @@ Inductive case :=
 | CPub (os : list obs) (es : list nat)
 | CFilter (c : cfg) (dflt : nat) (qs : list (option nat * list nat))
 | CBuf (size : option nat) (es : list nat)
-| CFHist (d0 : nat) (ops : list fop).
+| CFHist (d0 : nat) (ops : list fop)
+| CPubLive (tab : list lobs) (os : list nat) (es : list nat).
 
 Definition run_show (c : case) : string :=
   match c with
   | CPub os es => String.concat " " (map show_dlv (publish_all os es))
   | CFilter c d qs => String.concat " " (map (fun q => show_nat (level_for c d (snd q)) ++ show_bool (passes c d (fst q) (snd q))) qs)
   | CBuf size es => show_list show_nat (feed size es)
+  | CPubLive tab os es =>
+      let '(ds, oo) := publish_all_live tab os es in
+      if oo then "OOF" else String.concat " " (map show_dlv ds)
   | CFHist d0 ops => String.concat " " (map (fun a => match a with ALevel l => show_nat l | APass b => show_bool b end) (frun (finit d0) ops))
   end.
